@@ -45,7 +45,9 @@ def s_interp3():
         "kind": st.just("interp3"), "start": gens.pose3(t_hi=6, lo_exp=-6), "has_start": st.booleans(),
         "daxis": gens.direction3(), "dangle": rel_angle(), "t1": gens.trans(3, -6, 6),
         "s": st.lists(s_values(), min_size=1, max_size=4), "bad_s": st.one_of(gens.logmag(-12, 1).map(lambda x: -x), gens.logmag(-12, 1).map(lambda x: 1 + x)),
-        "shortest": st.booleans(), "se": st.booleans(), "flip": st.booleans()})
+        "shortest": st.booleans(), "se": st.booleans(), "flip": st.booleans(),
+        # rounding-size perturbation of the end pose (what a product of valid poses looks like: trace may exceed 3 by an ulp)
+        "noise1": st.one_of(st.none(), st.none(), st.none(), gens.rounding_noise())})
 
 
 def s_interp2():
@@ -118,6 +120,10 @@ def _interp3(case):
     t0 = arr(case["start"]["t"]) if case["has_start"] else np.zeros(3)
     D = refs.rodrigues(case["daxis"], case["dangle"])
     R1 = refs.polish(R0 @ D)
+    nz = case.get("noise1")
+    if nz:
+        Nn = np.array(nz["pat"], dtype=float).reshape(3, 3)
+        R1 = R1 + nz["k"] * np.finfo(float).eps * ((Nn + Nn.T) / 2 if nz.get("sym") else Nn)
     t1 = arr(case["t1"])
     k, th = refs.axis_angle(R0.T @ R1)
     ss = case["s"]
